@@ -476,7 +476,7 @@ static const struct fault_menu fault_menus[C_NCALLS] = {
   [C_FCNTL] = { 1, { EBADF } },
   [C_CHDIR] = { 2, { ENOENT, ENOTDIR } },
   [C_EXEC] = { 3, { ENOENT, EACCES, E2BIG } },
-  [C_GETCWD] = { 2, { ENOENT, EACCES } },
+  [C_GETCWD] = { 3, { ENOENT, EACCES, ERANGE } }, /* ERANGE: "buffer too small", as with a longer directory: the caller is expected to retry */
   [C_GETRLIMIT] = { 3, { EINVAL, -1 /* RLIM_INFINITY */, -2 /* > 1 Mi */ } },
   [C_FILENO] = { 1, { EBADF } },
   [C_MALLOC] = { 1, { ENOMEM } },
